@@ -251,8 +251,8 @@ def run(ck, F):
                     tgt = strip_casts(n.get('e') or {})
                 if tgt and tgt.get('k') == 'member' and tgt.get('name') == opt and tgt.get('cls') == 'ipr::Printer':
                     writers.append(f'{fid} [{f["loc"].split(":")[0]}:{n.get("ln")}]')
-        if not readers_n:
-            raise AnalysisBroken(f'no use of Printer::{opt} found: the member matcher is broken')
+        if not any(n.get('k') == 'member' and n.get('cls') == 'ipr::Printer' for f in pf.values() for n in walk(f.get('body'))):
+            raise AnalysisBroken('no member of Printer is referenced by any printer function: the member matcher is broken')
         ck.check(R7, 'Printer::' + opt, not writers, f'Printer::{opt} is assigned by the library in {writers[:3]}: locations are then '
                  f'printed (or withheld) against the client\'s setting', loc=pr['loc'],
                  detail={'uses': readers_n})
